@@ -44,7 +44,22 @@ struct Cfg {
   set<long long> ts;
   int bits = 64;
   bool auto_n = false;  // pass num_threads = 0 ("as many as there are cores": the shim reports n cores)
+  // the real range is [s + base, e + base) in the element type; everything that is logged is relative to base again, so
+  // ranges next to the maximum of 32- and 64-bit types stay within the checker's integers
+  unsigned long long base = 0;
 };
+static unsigned long long g_base = 0;
+static int g_w = 64;
+static long long rel(long long x) {
+  if (!g_base) return x;
+  unsigned long long d = (unsigned long long)x - g_base;
+  if (g_w < 64) {
+    d &= (1ULL << g_w) - 1;
+    if (d >> (g_w - 1)) return (long long)d - (1LL << g_w);
+  }
+  long long r = (long long)d;
+  return r < -1000000 ? -999999 : r > 1000000 ? 999999 : r;   // far outside any range driven: one sentinel value
+}
 
 static vt::Trace tr;
 
@@ -55,7 +70,7 @@ static string ev_json(const vshim::Event& e) {
   } else if (e.op == "joined") {
     j.str("e", "joined").num("t", e.obj);
   } else {
-    j.str("e", "a").num("t", e.t).str("op", e.op).num("obj", e.obj).num("a", e.a).num("b", e.b).num("ret", e.ret).num("ok", e.ok);
+    j.str("e", "a").num("t", e.t).str("op", e.op).num("obj", e.obj).num("a", rel(e.a)).num("b", rel(e.b)).num("ret", rel(e.ret)).num("ok", e.ok);
   }
   return j.done();
 }
@@ -64,11 +79,24 @@ template <typename IntT>
 static void run_once(const Cfg& c, const vector<int>& prefix, function<int(int)> chooser) {
   vshim::g.reset(prefix);
   vshim::g.chooser = chooser;
+  g_base = c.base;
+  g_w = (int)(8 * sizeof(IntT));
   vector<string> lines;
   mutex lm;  // only contended if the code under test stops using atomics (then workers run unscheduled)
   vshim::g.on_event = [&](const vshim::Event& e) {
     lock_guard<mutex> g(lm);
     lines.push_back(ev_json(e));
+    // a run that goes on claiming blocks for ever (a cursor that wrapped, a loop that lost its bound) is cut off here and
+    // reported as an event of its own instead of hanging the check
+    if (lines.size() > 60000) {
+      string all;
+      for (size_t i = 0; i < 400 && i < lines.size(); i++) all += lines[i] + "\n";
+      all += "{\"e\":\"Runaway\",\"events\":" + to_string(lines.size()) + "}";
+      tr.emit(all);
+      tr.stats();
+      fflush(nullptr);
+      _exit(0);
+    }
   };
   {
     vt::J j;
@@ -77,9 +105,9 @@ static void run_once(const Cfg& c, const vector<int>& prefix, function<int(int)>
     lines.push_back(j.done());
   }
   auto fn = [&](IntT v, size_t thread_num) -> bool {
-    bool r = c.ts.count((long long)v) != 0;
+    bool r = c.ts.count(rel((long long)v)) != 0;
     vt::J j;
-    j.str("e", "call").num("t", vshim::my_id).num("v", (long long)v).num("tn", (long long)thread_num).num("r", r);
+    j.str("e", "call").num("t", vshim::my_id).num("v", rel((long long)v)).num("tn", (long long)thread_num).num("r", r);
     lock_guard<mutex> g(lm);
     lines.push_back(j.done());
     return r;
@@ -87,18 +115,19 @@ static void run_once(const Cfg& c, const vector<int>& prefix, function<int(int)>
   string ret_line;
   try {
     if (c.variant == "range") {
-      IntT r = phosg::parallel_range<IntT>(fn, (IntT)c.s, (IntT)c.e, c.auto_n ? 0 : c.n, nullptr);
+      IntT r = phosg::parallel_range<IntT>(fn, (IntT)((unsigned long long)c.s + c.base), (IntT)((unsigned long long)c.e + c.base), c.auto_n ? 0 : c.n, nullptr);
       vt::J j;
-      j.str("e", "ret").num("val", (long long)r).raw("set", "[]").str("exc", "");
+      j.str("e", "ret").num("val", rel((long long)r)).raw("set", "[]").str("exc", "");
       ret_line = j.done();
     } else if (c.variant == "blocks") {
-      IntT r = phosg::parallel_range_blocks<IntT>(fn, (IntT)c.s, (IntT)c.e, (IntT)c.blk, c.auto_n ? 0 : c.n, nullptr);
+      IntT r = phosg::parallel_range_blocks<IntT>(fn, (IntT)((unsigned long long)c.s + c.base), (IntT)((unsigned long long)c.e + c.base), (IntT)c.blk, c.auto_n ? 0 : c.n, nullptr);
       vt::J j;
-      j.str("e", "ret").num("val", (long long)r).raw("set", "[]").str("exc", "");
+      j.str("e", "ret").num("val", rel((long long)r)).raw("set", "[]").str("exc", "");
       ret_line = j.done();
     } else {
-      auto r = phosg::parallel_range_blocks_multi<IntT>(fn, (IntT)c.s, (IntT)c.e, (IntT)c.blk, c.auto_n ? 0 : c.n, nullptr);
-      vector<long long> v(r.begin(), r.end());
+      auto r = phosg::parallel_range_blocks_multi<IntT>(fn, (IntT)((unsigned long long)c.s + c.base), (IntT)((unsigned long long)c.e + c.base), (IntT)c.blk, c.auto_n ? 0 : c.n, nullptr);
+      vector<long long> v;
+      for (auto x : r) v.push_back(rel((long long)x));
       sort(v.begin(), v.end());
       vt::J j;
       j.str("e", "ret").num("val", -1).ints("set", v).str("exc", "");
@@ -261,8 +290,39 @@ int main(int argc, char** argv) {
       c.e = 255 - (long long)r.below((uint64_t)(c.n * c.blk + 2));
       c.s = c.e - len;
       if (r.chance(30) && len) c.ts.insert(c.s + r.below(len));
-      run_once<uint8_t>(c, {}, [&](int k) { return (int)r.below(k); });
-      tr.nontrivial("wrap" + c.variant + to_string(len) + to_string(c.n));
+      // the same distances below the maximum of the 32- and 64-bit types (logged relative to a base just below it)
+      switch (i % 5) {
+        case 1: {
+          Cfg h = c;
+          h.bits = 32;
+          h.base = 4294967295ULL - 255;   // relative 255 = UINT32_MAX
+          run_once<uint32_t>(h, {}, [&](int k) { return (int)r.below(k); });
+          break;
+        }
+        case 2: {
+          Cfg h = c;
+          h.bits = 64;
+          h.base = 18446744073709551615ULL - 255;   // relative 255 = UINT64_MAX
+          run_once<uint64_t>(h, {}, [&](int k) { return (int)r.below(k); });
+          break;
+        }
+        case 3: {
+          Cfg h = c;
+          h.bits = 32;
+          h.base = 2147483647ULL - 255;   // relative 255 = INT32_MAX
+          run_once<int32_t>(h, {}, [&](int k) { return (int)r.below(k); });
+          break;
+        }
+        case 4: {
+          Cfg h = c;
+          h.bits = 64;
+          h.base = 9223372036854775807ULL - 255;   // relative 255 = INT64_MAX
+          run_once<int64_t>(h, {}, [&](int k) { return (int)r.below(k); });
+          break;
+        }
+        default: run_once<uint8_t>(c, {}, [&](int k) { return (int)r.below(k); });
+      }
+      tr.nontrivial("wrap" + c.variant + to_string(len) + to_string(c.n) + to_string(i % 5));
     }
     tr.stats();
     return 0;
